@@ -86,11 +86,11 @@ CAMPAIGNS = {
                   ex(ph(HIST), ph(HIST, pick=6), ph(HIST, pick=3), ph(["filter"], True, "r", 6))]),
     "empty_head_after_history": model_campaign(
         "empty_head_after_history",
-        quick=[ex(ph(["remove_empty", "head"], True, "r")),
-               ex(ph(HIST), ph(["remove_empty", "head"], True, "r", 8)),
-               ex(ph(HIST), ph(HIST, pick=4), ph(["remove_empty", "head"], True, "r", 3))],
-        thorough=[ex(ph(HIST, True), ph(["remove_empty", "head"], True, "r")),
-                  ex(ph(HIST), ph(HIST, pick=8), ph(["remove_empty", "head"], True, "r"))]),
+        quick=[ex(ph(["remove_empty", "head", "align_df"], True, "r")),
+               ex(ph(HIST), ph(["remove_empty", "head", "align_df"], True, "r", 8)),
+               ex(ph(HIST), ph(HIST, pick=4), ph(["remove_empty", "head", "align_df"], True, "r", 3))],
+        thorough=[ex(ph(HIST, True), ph(["remove_empty", "head", "align_df"], True, "r")),
+                  ex(ph(HIST), ph(HIST, pick=8), ph(["remove_empty", "head", "align_df"], True, "r"))]),
     "reorder_full": model_campaign(
         "reorder_full",
         quick=[ex(ph(FULLREORDER, True, "r")),
@@ -125,10 +125,10 @@ CAMPAIGNS = {
 IDONLY = [[i, "plain"] for i in IDP]
 INPLACE_OPS = ["filter", "update_ids", "add_metadata", "del_metadata", "transform", "norm", "pa", "rankdata",
                "remove_empty"]
-NEWTABLE_OPS = ["sort", "sort_order", "transpose", "copy", "head", "align_to"]
+NEWTABLE_OPS = ["sort", "sort_order", "transpose", "copy", "head", "align_to", "align_df"]
 XFORM = ["transform", "norm", "pa", "rankdata"]
 ALLOPS = ["filter", "remove_empty", "head", "sort", "sort_order", "transpose", "copy", "update_ids", "add_metadata",
-          "del_metadata", "transform", "pa", "rankdata", "align_to", "read"]
+          "del_metadata", "transform", "pa", "rankdata", "align_to", "align_df", "read"]
 LAYOUT = ["sort_order", "transpose", "read", "filter", "sort"]          # calls that change the hidden layout
 
 CAMPAIGNS.update({
